@@ -563,7 +563,20 @@ def _(ctx):
 
 @model('<std::option::Option<T>>::unwrap_or_default')
 def _(ctx):
-    raise Unsupported('Option::unwrap_or_default')
+    """the payload, or T::default(): 0 / 0.0 / false / the EMPTY slice or vector"""
+    from .facts import subst_ty
+    g, p = _opt_parts(ctx, ctx.args[0])
+    ty = (ctx.fn.get('args') or [None])[0]
+    if ty is not None and ctx.frame is not None:
+        ty = subst_ty(ty, ctx.frame.subst)
+    d = _default_of(ty)
+    if d is None and ty and ty.get('k') == 'ref' and (ty.get('ty') or {}).get('k') == 'slice':
+        d = EmptySlice()
+    if d is None:
+        raise Unsupported('Option::unwrap_or_default of a type whose default is not modelled')
+    if p is None or g == FALSE:
+        return d
+    return ctx.interp.select(g, p, d)
 
 
 @model('<std::option::Option<T>>::is_some')
@@ -3222,6 +3235,8 @@ def _(ctx):
         new = none()
     elif isinstance(old, tuple) and old and old[0] in ('fc', 'f+', 'f-', 'f*', 'f/', 'fma', 'fcall', 'fneg'):
         new = ('fc', 0)
+    elif isinstance(old, (SliceRef, EmptySlice)):
+        new = EmptySlice()           # the default `&[T]` is the empty slice
     else:
         raise Unsupported('mem::take of %s' % type(old).__name__)
     it.write(ctx.state, dst.root, dst.path, new)
@@ -3234,6 +3249,23 @@ def _(ctx):
     r = MODELS['std::convert::From::from'](sub)
     ctx.state = sub.state
     return r
+
+
+@model('<usize>::wrapping_add', '<u64>::wrapping_add', '<u32>::wrapping_add')
+def _(ctx):
+    a, b = ctx.args
+    return ('iwrapadd', a, b)          # a + b only when it does not wrap: kept apart from `+`
+
+
+@model('<u64>::wrapping_sub', '<u32>::wrapping_sub')
+def _(ctx):
+    a, b = ctx.args
+    return ('iwrapsub', a, b)
+
+
+@model('<f64>::from_bits')
+def _(ctx):
+    return ('fcall', 'from_bits', ctx.args[0])
 
 
 @model('<usize>::saturating_add')
